@@ -377,5 +377,9 @@ func Emit(name string, v any) {
 	Emits = append(Emits, name+"="+s)
 }
 
+// ClockTime is the instant ns nanoseconds of model time after a fixed epoch (symbolically: a time
+// value whose arithmetic stays on the nanosecond count).
+func ClockTime(ns int64) time.Time { return time.Unix(1700000000, 0).Add(time.Duration(ns)) }
+
 // MkTime is time.Unix(sec, nsec).UTC() for 0 <= nsec < 1e9.
 func MkTime(sec, nsec int64) time.Time { return time.Unix(sec, nsec).UTC() }
